@@ -18,6 +18,7 @@ import (
 	"strconv"
 	"strings"
 	"sync"
+	"sync/atomic"
 	"time"
 )
 
@@ -42,6 +43,9 @@ type Check struct {
 	// QuickBudget / ThoroughBudget are internal deadlines; a run that hits one
 	// ends with exhaustive:false and exit 0.
 	QuickBudget, ThoroughBudget time.Duration
+	// CaseTimeout (with MarkCases): a marked case that does not return within
+	// this time makes the worker exit; the case is reported and the worker resumed.
+	CaseTimeout time.Duration
 }
 
 var registry = map[string]*Check{}
@@ -99,7 +103,10 @@ type Ctx struct {
 	idx      int64
 	fam      *FamilyStat
 	markFile *os.File
-	mark     bool
+	violFile *os.File
+	ckptPath string
+	from     int64 // resume: cases with a smaller index were handled by an earlier incarnation of this worker
+	markAt   atomic.Int64
 	maxViol  int
 	expired  bool
 }
@@ -131,6 +138,9 @@ func (c *Ctx) Next() bool {
 		return false
 	}
 	if (i+c.Seed)%int64(c.NShards) != int64(c.Shard) {
+		return false
+	}
+	if i < c.from {
 		return false
 	}
 	if i&0x3f == 0 && time.Now().After(c.Deadline) {
@@ -222,10 +232,25 @@ func (c *Ctx) Infra(format string, a ...any) {
 	}
 }
 
-// Mark records the key of the case about to run (crash attribution).
+// Mark records the key of the case about to run (crash/hang attribution). It
+// must be called after Next() returned true for that case.
 func (c *Ctx) Mark(key string) {
 	if c.markFile != nil {
-		c.markFile.WriteAt([]byte(fmt.Sprintf("%-8d%s\n", len(key), key)), 0)
+		c.markFile.WriteAt([]byte(fmt.Sprintf("%-12d%-8d%s\n", c.idx-1, len(key), key)), 0)
+		c.markAt.Store(time.Now().UnixNano())
+		if c.res.Evaluations%2000 == 0 {
+			c.checkpoint()
+		}
+	}
+}
+
+func (c *Ctx) checkpoint() {
+	if c.ckptPath == "" {
+		return
+	}
+	if b, err := json.Marshal(&c.res); err == nil {
+		os.WriteFile(c.ckptPath+".tmp", b, 0o644)
+		os.Rename(c.ckptPath+".tmp", c.ckptPath)
 	}
 }
 
@@ -239,7 +264,16 @@ func (c *Ctx) Violation(key, what string, detail any) {
 		c.Count("violations_not_listed", 1)
 		return
 	}
-	c.res.Violations = append(c.res.Violations, Violation{Key: key, What: what, Family: fam, Detail: detail})
+	v := Violation{Key: key, What: what, Family: fam, Detail: detail}
+	if c.violFile != nil {
+		// durable: the worker may die on a later case
+		if b, err := json.Marshal(&v); err == nil {
+			c.violFile.Write(append(b, '\n'))
+			c.Count("violations_recorded", 1)
+			return
+		}
+	}
+	c.res.Violations = append(c.res.Violations, v)
 }
 
 // Stable runs f n times and reports whether all results are equal to the first.
@@ -347,6 +381,7 @@ func Main() {
 		tier = "quick"
 	}
 	var shard, out, only string
+	var from int64
 	listFailing := false
 	for i := 1; i < len(args); i++ {
 		switch args[i] {
@@ -362,6 +397,9 @@ func Main() {
 		case "--only":
 			i++
 			only = args[i]
+		case "--from":
+			i++
+			from, _ = strconv.ParseInt(args[i], 10, 64)
 		case "--replay":
 			i++
 			b, err := os.ReadFile(args[i])
@@ -391,7 +429,7 @@ func Main() {
 		seed = -seed
 	}
 	if shard != "" {
-		worker(ch, tier, shard, out, only, seed)
+		worker(ch, tier, shard, out, only, seed, from)
 		return
 	}
 	os.Exit(parent(ch, tier, only, seed, listFailing))
@@ -417,18 +455,39 @@ func budget(ch *Check, tier string) time.Duration {
 	return b
 }
 
-func worker(ch *Check, tier, shard, out, only string, seed int64) {
+func worker(ch *Check, tier, shard, out, only string, seed, from int64) {
 	var s, n int
 	fmt.Sscanf(shard, "%d/%d", &s, &n)
-	c := &Ctx{Prop: ch.ID, Tier: tier, Shard: s, NShards: n, Seed: seed, Only: only,
+	c := &Ctx{Prop: ch.ID, Tier: tier, Shard: s, NShards: n, Seed: seed, Only: only, from: from,
 		Deadline: time.Now().Add(budget(ch, tier)), maxViol: 2000}
+	if d := os.Getenv("VERIF_DEADLINE_UNIX"); d != "" {
+		if u, err := strconv.ParseInt(d, 10, 64); err == nil {
+			c.Deadline = time.Unix(u, 0)
+		}
+	}
 	if ch.MarkCases && out != "" {
-		f, err := os.Create(out + ".mark")
-		if err == nil {
+		if f, err := os.Create(out + ".mark"); err == nil {
 			c.markFile = f
+		}
+		if f, err := os.OpenFile(out+".viol", os.O_APPEND|os.O_CREATE|os.O_WRONLY, 0o644); err == nil {
+			c.violFile = f
+		}
+		c.ckptPath = out + ".ckpt"
+		c.maxViol = 1 << 30
+		if ch.CaseTimeout > 0 {
+			c.markAt.Store(time.Now().UnixNano())
+			go func() {
+				for {
+					time.Sleep(200 * time.Millisecond)
+					if time.Since(time.Unix(0, c.markAt.Load())) > ch.CaseTimeout {
+						os.Exit(97) // the marked case does not return
+					}
+				}
+			}()
 		}
 	}
 	ch.Run(c)
+	c.markAt.Store(time.Now().Add(time.Hour).UnixNano())
 	b, err := json.Marshal(&c.res)
 	if err != nil {
 		fmt.Fprintln(os.Stderr, "marshal result:", err)
@@ -475,10 +534,11 @@ func parent(ch *Check, tier, only string, seed int64, listFailing bool) int {
 	self, _ := os.Executable()
 
 	type wres struct {
-		res    Result
-		err    error
-		stderr string
-		mark   string
+		res     Result
+		err     error
+		stderr  string
+		crashes []Violation // crash/hang attributions and durable violations
+		carried []Result    // counters of dead worker incarnations
 	}
 	results := make([]wres, n)
 	var wg sync.WaitGroup
@@ -487,42 +547,80 @@ func parent(ch *Check, tier, only string, seed int64, listFailing bool) int {
 		go func(i int) {
 			defer wg.Done()
 			out := filepath.Join(tmp, fmt.Sprintf("w%d.json", i))
-			wargs := []string{ch.ID, "--tier", tier, "--shard", fmt.Sprintf("%d/%d", i, n), "--out", out}
-			if only != "" {
-				wargs = append(wargs, "--only", only)
-			}
-			var cmd *exec.Cmd
-			if ch.MemLimitKB > 0 {
-				sh := fmt.Sprintf("ulimit -v %d; exec \"$0\" \"$@\"", ch.MemLimitKB)
-				cmd = exec.Command("/bin/bash", append([]string{"-c", sh, self}, wargs...)...)
-			} else {
-				cmd = exec.Command(self, wargs...)
-			}
-			cmd.Env = append(os.Environ(), "GOMAXPROCS=2", "VERIF_DIR="+dir)
-			cmd.Env = append(cmd.Env, ch.WorkerEnv...)
-			var eb bytes.Buffer
-			cmd.Stderr = &eb
-			cmd.Stdin = nil
-			err := cmd.Run()
 			r := &results[i]
-			r.stderr = eb.String()
-			if mb, e := os.ReadFile(out + ".mark"); e == nil {
-				var l int
-				if _, e := fmt.Sscanf(string(mb[:8]), "%d", &l); e == nil && 8+l <= len(mb) {
-					r.mark = string(mb[8 : 8+l])
+			deadline := time.Now().Add(budget(ch, tier))
+			var from int64
+			for restarts := 0; ; restarts++ {
+				wargs := []string{ch.ID, "--tier", tier, "--shard", fmt.Sprintf("%d/%d", i, n), "--out", out, "--from", strconv.FormatInt(from, 10)}
+				if only != "" {
+					wargs = append(wargs, "--only", only)
 				}
+				var cmd *exec.Cmd
+				if ch.MemLimitKB > 0 {
+					sh := fmt.Sprintf("ulimit -v %d; exec \"$0\" \"$@\"", ch.MemLimitKB)
+					cmd = exec.Command("/bin/bash", append([]string{"-c", sh, self}, wargs...)...)
+				} else {
+					cmd = exec.Command(self, wargs...)
+				}
+				cmd.Env = append(os.Environ(), "GOMAXPROCS=2", "VERIF_DIR="+dir, fmt.Sprintf("VERIF_DEADLINE_UNIX=%d", deadline.Unix()))
+				cmd.Env = append(cmd.Env, ch.WorkerEnv...)
+				var eb bytes.Buffer
+				cmd.Stderr = &eb
+				cmd.Stdin = nil
+				os.Remove(out + ".mark")
+				err := cmd.Run()
+				r.stderr = eb.String()
+				if err == nil {
+					b, e := os.ReadFile(out)
+					if e != nil {
+						r.err = e
+					} else if e := json.Unmarshal(b, &r.res); e != nil {
+						r.err = e
+					}
+					break
+				}
+				// the worker died: attribute to the marked case and resume after it
+				var markIdx int64 = -1
+				mark := ""
+				if mb, e := os.ReadFile(out + ".mark"); e == nil && len(mb) > 20 {
+					var l int
+					if _, e := fmt.Sscanf(string(mb[:20]), "%d %d", &markIdx, &l); e == nil && 20+l <= len(mb) {
+						mark = string(mb[20 : 20+l])
+					}
+				}
+				if !ch.MarkCases || mark == "" || markIdx < from || restarts > 20000 {
+					r.err = err
+					break
+				}
+				tail := r.stderr
+				if len(tail) > 1500 {
+					tail = tail[:700] + "\n...\n" + tail[len(tail)-700:]
+				}
+				what := "worker process died (fatal runtime error) while running this case"
+				if ee, ok := err.(*exec.ExitError); ok && ee.ExitCode() == 97 {
+					what = fmt.Sprintf("the call did not return within %s", ch.CaseTimeout)
+				}
+				r.crashes = append(r.crashes, Violation{Key: mark, What: what, Detail: map[string]any{"stderr": tail, "error": err.Error()}})
+				// keep the counters of the dead incarnation (last checkpoint; a lower bound)
+				if cb, e := os.ReadFile(out + ".ckpt"); e == nil {
+					var cr Result
+					if json.Unmarshal(cb, &cr) == nil {
+						r.carried = append(r.carried, cr)
+					}
+					os.Remove(out + ".ckpt")
+				}
+				from = markIdx + 1
 			}
-			if err != nil {
-				r.err = err
-				return
-			}
-			b, e := os.ReadFile(out)
-			if e != nil {
-				r.err = e
-				return
-			}
-			if e := json.Unmarshal(b, &r.res); e != nil {
-				r.err = e
+			if vb, e := os.ReadFile(out + ".viol"); e == nil {
+				for _, line := range bytes.Split(vb, []byte{'\n'}) {
+					if len(bytes.TrimSpace(line)) == 0 {
+						continue
+					}
+					var v Violation
+					if json.Unmarshal(line, &v) == nil {
+						r.crashes = append(r.crashes, v)
+					}
+				}
 			}
 		}(i)
 	}
@@ -537,17 +635,24 @@ func parent(ch *Check, tier, only string, seed int64, listFailing bool) int {
 	infra := []string{}
 	for i := range results {
 		r := &results[i]
+		m.Violations = append(m.Violations, r.crashes...)
+		for _, cr := range r.carried {
+			m.Evaluations += cr.Evaluations
+			m.Nontrivial += cr.Nontrivial
+			for k, f := range cr.Families {
+				mf := m.Families[k]
+				if mf == nil {
+					mf = &FamilyStat{Name: f.Name, Bound: f.Bound, Complete: true}
+					m.Families[k] = mf
+				}
+				mf.Evaluated += f.Evaluated
+				mf.Nontrivial += f.Nontrivial
+			}
+		}
 		if r.err != nil {
 			tail := r.stderr
 			if len(tail) > 3000 {
 				tail = tail[:1500] + "\n...\n" + tail[len(tail)-1500:]
-			}
-			if ch.MarkCases && r.mark != "" {
-				m.Violations = append(m.Violations, Violation{Key: r.mark,
-					What:   "worker process died (fatal runtime error / crash) while running this case",
-					Detail: map[string]any{"stderr": tail, "error": r.err.Error()}})
-				m.Expired = true // the rest of that shard was not explored
-				continue
 			}
 			infra = append(infra, fmt.Sprintf("worker %d failed: %v\n%s", i, r.err, tail))
 			continue
